@@ -123,7 +123,7 @@ FUNCTIONS = list(_s.FUNCTIONS) + [
     {'q': AM, 'sig': 'std::optional<int> Pistache::Http::Cookie::*', 'c': 'AttributeMatcher_int_match',
      'ghost': [('AttributeMatcher_int_match__strntol', 'before', 'g_v = 0; g_big = 0; g_nondigit = 0;', 'optional')], 'contract': """
         requires CUR_PRE(cursor) && FRESH(obj, sizeof(*obj)) && attr == offsetof(struct Pistache_Http_Cookie, maxAge) && vs_exc == 0
-        assigns POS(cursor), obj->maxAge, vs_exc, g_hit_end, g_v, g_big, g_nondigit, vs_errno
+        assigns POS(cursor), obj->maxAge, vs_exc, g_hit_end, g_v, g_big, g_nondigit
         ensures COOKIE_EXC_OK && OLD(POS(cursor)) <= POS(cursor) && POS(cursor) <= LEN(cursor)
         ensures vs_exc == 0 ==> POS(cursor) >= OLD(POS(cursor)) + 1
         # Max-Age: digits only, no overflow, never negative; the number stored is the number written
